@@ -64,6 +64,13 @@ class IndexTok:
             label = repr(index)
         except Exception:
             raise U("index expression", node)
+        if isinstance(index, tuple) and index and all(x == slice(None, None, None) for x in index[:-1]) and \
+                isinstance(index[-1], (int, z3.ArithRef)) and not isinstance(index[-1], bool):
+            ax, k = len(index) - 1, index[-1]
+            site = ex.site("take")
+            tok = IndexTok(None, term=take_index(z3.IntVal(ax), k if isinstance(k, z3.ExprRef) else z3.IntVal(k)))
+            tok.take = (ax, k)
+            return tok
         if any(isinstance(x, z3.ExprRef) for x in (index if isinstance(index, tuple) else (index,))):
             raise U("symbolic index expression", node)
         return IndexTok(None, term=z3.Const(f"index:{label}", IndexExpr))
@@ -74,6 +81,19 @@ at0 = z3.Function("at0", I, Idx, Idx)                        # position (k, i) o
 first0 = z3.Function("first0", Idx, I)                       # k of such a position
 rest0 = z3.Function("rest0", Idx, Idx)                       # i of such a position
 index_newaxis = z3.Const("index:None", IndexExpr)            # the index expression numpy.newaxis
+
+
+take_index = z3.Function("take_index", I, I, IndexExpr)     # the index expression (slice(None),)*axis + (k,): element k along an axis
+drop_axis = z3.Function("drop_axis", Shp, I, Shp)            # the shape without that axis
+extent = z3.Function("extent", Shp, I, I)                    # a.shape[axis]
+
+
+def take_axioms(ctx):
+    s = z3.Const(ctx.fresh("s"), Shp)
+    ax, k = z3.Int(ctx.fresh("ax")), z3.Int(ctx.fresh("k"))
+    return [z3.ForAll([s, ax, k], z3.Implies(z3.And(0 <= ax, ax < ndim(s), 0 <= k, k < extent(s, ax)),
+                                             ishape(s, take_index(ax, k)) == drop_axis(s, ax)), patterns=[ishape(s, take_index(ax, k))]),
+            z3.ForAll([s, ax], z3.Implies(z3.And(0 <= ax, ax < ndim(s)), z3.And(ndim(drop_axis(s, ax)) == ndim(s) - 1, extent(s, ax) >= 0)))]
 
 
 def stack_axioms(ctx):
@@ -95,7 +115,7 @@ def index_axioms(ctx):
     s = z3.Const(ctx.fresh("s"), Shp)
     j = z3.Const(ctx.fresh("j"), Idx)
     x = z3.Const(ctx.fresh("x"), IndexExpr)
-    return stack_axioms(ctx) + [z3.ForAll([s, j, x], z3.Implies(inshape(j, ishape(s, x)), inshape(imap(j, s, x), s)),
+    return stack_axioms(ctx) + take_axioms(ctx) + [z3.ForAll([s, j, x], z3.Implies(inshape(j, ishape(s, x)), inshape(imap(j, s, x), s)),
                       patterns=[imap(j, s, x)])]
 
 
@@ -181,6 +201,12 @@ def frame_check(ex, region, node, what="write"):
 class ShapeV:
     def __init__(self, term):
         self.term = term
+
+    def sx_getitem(self, ex, idx, node):
+        if isinstance(idx, int) and idx >= 0:
+            ex.oblige(f"pre({ex.site('shape_index')}).axis_exists", ndim(self.term) > idx, "index", node)
+            return extent(self.term, z3.IntVal(idx))
+        raise U("shape indexing", node)
 
     def sx_tuple(self, ex, node):
         return self                      # tuple(shape) of a shape given as a tuple
